@@ -1035,7 +1035,34 @@ func ruleC09(c *Ctx) {
 		// success return re-evaluates
 		c.Guard(rule, fn, afterSites(fn, firstOr(CallsTo(fn, fCtl+"reset")), nilErrorReturns(fn)), "return nil after start", nil, called(fCtl+"UpdateVolStatus"), called(fCtl+"UpdateCheckpoint"))
 	}
-	c.Floor(rule, 22)
+	// forgetting the election when the volume goes down: whoever shuts the frontend down because the
+	// last replica left, or drops a registration, clears StartSignalled / MaxRevReplica first
+	if fn := c.Anchor(rule, fCtl+"RemoveReplicaNoLock"); fn != nil {
+		R := NewRenderer(fn)
+		sd := CallsTo(fn, "invoke:Shutdown")
+		if len(sd) == 0 {
+			c.Bad(rule, FnName(fn)+" | frontend shut down with the last replica", "", "RemoveReplicaNoLock no longer shuts the frontend down when the last replica leaves", nil)
+		}
+		c.Guard(rule, fn, sd, "frontend.Shutdown (last replica left)", nil,
+			Need{Desc: "StartSignalled = false", Instr: func(in ssa.Instruction) bool {
+				s, ok := in.(*ssa.Store)
+				return ok && R.V(s.Addr) == "&$0.StartSignalled" && R.V(s.Val) == "false"
+			}},
+			Need{Desc: `MaxRevReplica = ""`, Instr: func(in ssa.Instruction) bool {
+				s, ok := in.(*ssa.Store)
+				return ok && R.V(s.Addr) == "&$0.MaxRevReplica" && R.V(s.Val) == `""`
+			}},
+			atom("it is the last data replica", "+len($0.replicas) -1 ==0"))
+	}
+	if fn := c.Anchor(rule, fCtl+"rmReplicaFromRegisteredReplicas"); fn != nil {
+		a, b := storesOfConst(fn, "Controller", "StartSignalled", "false"), storesOfConst(fn, "Controller", "MaxRevReplica", `""`)
+		if len(a) == 1 && len(b) == 1 {
+			c.OK(rule, FnName(fn)+" | clears the election state", c.P.Pos(fn.Pos()), "StartSignalled=false; MaxRevReplica=\"\"", false)
+		} else {
+			c.Bad(rule, FnName(fn)+" | clears the election state", c.P.Pos(fn.Pos()), "a failed start must clear StartSignalled and MaxRevReplica", nil)
+		}
+	}
+	c.Floor(rule, 26)
 }
 
 func firstOr(xs []ssa.Instruction) ssa.Instruction {
